@@ -140,6 +140,17 @@ def install(eng, world=None):
                         gwrite(eng, st, "eof", ICONST(1))
                     elif st.ctx.entails(lin.le(cs[1], ln[1])):
                         pass
+                    elif ok and st.ctx.entails(lin.le(ln[1], cs[1])):
+                        # not decided yet (the chunk is queued first and its length tested afterwards): the ghost becomes a 0/1
+                        # unknown tied to the length,  eof = 1  <=>  len < chunk_size, so that the later test settles it
+                        es = eng.fresh("eof", (0, 1))
+                        ev_ = lin.var(es)
+                        d_ = lin.sub(cs[1], ln[1])                       # >= 0
+                        hi = st.ctx.bounds(cs[1])[1]
+                        big = hi if hi is not None and hi < (1 << 40) else (1 << 40)
+                        st.ctx.add(lin.le(ev_, d_))                       # eof = 1  =>  chunk_size - len >= 1
+                        st.ctx.add(lin.le(d_, lin.scale(ev_, big)))       # eof = 0  =>  chunk_size - len <= 0
+                        gwrite(eng, st, "eof", I(ev_))
                     else:
                         gwrite(eng, st, "eof", I(lin.var(eng.fresh("eof", (0, 1)))))
                 else:
